@@ -29,7 +29,7 @@ LEVEL_NOTE = (
     "Trusted: numpy's own indexing as the model, the pure value function, Hypothesis generation. Bounds: <= 3 finite "
     "and <= 3 infinite dimensions, orders <= 4, <= 20 operations per history."
 )
-TECHNIQUE = "property-based testing (Hypothesis), model-based operation sequences vs numpy reference model"
+TECHNIQUE = "property-based testing (Hypothesis), model-based operation sequences vs numpy reference model + coverage-guided fuzzing stage (atheris/libFuzzer driving the same strategy and oracle)"
 BUDGET = {"quick": 6000, "thorough": 150000}
 FUZZ = {"quick": 3200, "thorough": 160000}  # executions of the coverage-guided stage (vlib/fuzz.py)
 RULE = (
